@@ -343,6 +343,39 @@ func c01Incremental(c c01Case, book []vPRec, ctx *vCtx) *vFailure {
 	if f := vCheckResolvedDB(db, full, want, c.Exact, "the same Resolver used again after recipes were added for names that were basic elements"); f != nil {
 		return f
 	}
+	// the same Resolver after a refusal: a recipe gets a reference into a ring, Resolve is refused, the reference and
+	// the ring are taken out again, and the second Resolve must give the book's resolution
+	{
+		db3 := vBuildDB(book, vPermFromSeed(len(book), c.PermSeed+1))
+		top := book[int(c.PermSeed%uint64(len(book)))].Head
+		for _, nm := range [][2]string{{"ring~a", "ring~b"}, {"ring~b", "ring~a"}} {
+			n := shared.NewParserNode(nm[0])
+			n.Elements.Add(nm[1], 1)
+			db3.Push(shared.NewDBNodeFromNode(n))
+		}
+		db3[top].Elements = append(db3[top].Elements, shared.Element{Name: "ring~a", Value: 1})
+		r3 := resolver.NewResolver(db3, resolver.Config{MaxDepth: c.N})
+		errRing := r3.Resolve()
+		ctx.Run(2)
+		if errRing != nil { // (a ring that is accepted is C11's subject)
+			delete(db3, "ring~a")
+			delete(db3, "ring~b")
+			var kept shared.Elements
+			for _, e := range db3[top].Elements {
+				if e.Name != "ring~a" {
+					kept = append(kept, e)
+				}
+			}
+			db3[top].Elements = kept
+			if err := r3.Resolve(); err != nil {
+				return vFailf("the same Resolver used again after a refused Resolve (a ring below %q, taken out again afterwards): %v on a book with h_max=%d < N=%d", top, err, m.HMax, c.N)
+			}
+			if f := vCheckResolvedDB(db3, book, m, c.Exact, "the same Resolver used again after a refused Resolve whose cause was taken out of the book"); f != nil {
+				return f
+			}
+			ctx.Label("resolver-reuse-after-refusal")
+		}
+	}
 	// the function entry point on the same situation
 	db2 := vBuildDB(book, vPermFromSeed(len(book), c.PermSeed))
 	if _, err := resolver.Resolve(resolver.Config{MaxDepth: c.N}, db2); err != nil {
